@@ -65,7 +65,7 @@ def _params(rng, cls, dt):
 def generate(ctx):
     rng = ctx.rng
     th = ctx.tier == "thorough"
-    n = 3600 if th else 112
+    n = 1000 if th else 112
     for i in range(n):
         cls = CLASSES[i % 8]
         dt = rng.choice([1.0, 0.5, 0.1, 1.3])
